@@ -49,6 +49,15 @@ def arm(what):
         pass
 
 
+def _audit_mark(what):
+    """a system call the shim lets through untouched and strace can see: brackets the operation for the
+    shim-completeness audit (the shim's own arm/disarm never reach the kernel)"""
+    try:
+        os.stat('/__kvaudit__/' + what)
+    except OSError:
+        pass
+
+
 def child_main(path):
     klepto = import_klepto()
     from kv import archmon
@@ -80,6 +89,7 @@ def child_main(path):
             a.update(dict((dec(k), dec(v)) for k, v in op[1]))
         elif o != 'open':
             a = archmon.public_open(b, root, False)
+        _audit_mark('begin')
         arm(job['arm'])
         if o == 'set':
             a[dec(op[1])] = dec(op[2])
@@ -100,6 +110,7 @@ def child_main(path):
         elif o == 'open':
             a = archmon.public_open(b, root, bool(op[1]))
         arm('disarm')
+        _audit_mark('end')
         with open(job['done'], 'w') as f:
             f.write('done')
         return
@@ -147,6 +158,96 @@ def run_child(job, scratch, name, shim_env=None, timeout=90):
     p = subprocess.run([PY, '-m', 'kv.crashmon', jp], env=env, cwd=scratch, timeout=timeout,
                        stdout=subprocess.PIPE, stderr=subprocess.STDOUT)
     return p.returncode, p.stdout.decode('utf-8', 'replace')[-600:]
+
+
+# ---- shim completeness audit: the same run seen by strace ------------------------------------------------
+
+STRACE_SET = ('open,openat,openat2,creat,write,pwrite64,pwritev,pwritev2,writev,close,rename,renameat,renameat2,'
+              'unlink,unlinkat,rmdir,mkdir,mkdirat,ftruncate,truncate,fsync,fdatasync,sync_file_range,chmod,fchmod,fchmodat,'
+              'link,linkat,symlink,symlinkat,fallocate,copy_file_range,sendfile,mknod,mknodat,newfstatat,stat,statx,'
+              'setxattr,fsetxattr,utimensat')
+_INTERPOSED = {'rename': 'rename', 'renameat': 'rename', 'renameat2': 'rename', 'rmdir': 'rmdir', 'mkdir': 'mkdir',
+               'mkdirat': 'mkdir', 'unlink': 'unlink', 'chmod': 'chmod', 'fchmodat': 'chmod', 'link': 'link',
+               'symlink': 'symlink'}
+_FD_INTERPOSED = {'write': 'write', 'pwrite64': 'pwrite', 'writev': 'writev', 'ftruncate': 'ftruncate',
+                  'fsync': 'fsync', 'fdatasync': 'fdatasync'}
+_UNINTERPOSED = ('openat2', 'pwritev', 'pwritev2', 'truncate', 'sync_file_range', 'fchmod', 'linkat', 'symlinkat',
+                 'fallocate', 'copy_file_range', 'sendfile', 'mknod', 'mknodat', 'setxattr', 'fsetxattr')
+
+
+def strace_mutations(path, root):
+    """kinds of the mutating system calls that touch `root`, between the audit marks, in the shim's vocabulary;
+    a call the shim has no entry point for is reported as 'UNINTERPOSED:<syscall>'"""
+    import re
+    out, on, written = [], False, set()
+    pat = re.compile(r'^(?:\[pid\s+\d+\]\s+|\d+\s+)?(\w+)\((.*)$')
+    with open(path, errors='replace') as f:
+        for line in f:
+            m = pat.match(line)
+            if not m:
+                continue
+            name, rest = m.group(1), m.group(2)
+            if '/__kvaudit__/begin' in rest:
+                on = True
+                continue
+            if '/__kvaudit__/end' in rest:
+                on = False
+                continue
+            if not on or root not in rest:
+                continue
+            args = rest.rsplit(') = ', 1)[0]
+            first = args.split(',', 1)[0]
+            if name in ('open', 'openat', 'creat'):
+                parg = args if name != 'openat' else args.split(',', 1)[1]
+                if ('"' + root) not in parg.split(',')[0]:
+                    continue
+                w = name == 'creat' or any(fl in args for fl in ('O_WRONLY', 'O_RDWR', 'O_CREAT', 'O_TRUNC'))
+                if w:
+                    out.append('open-w')
+            elif name in _FD_INTERPOSED:
+                if ('<' + root) in first:
+                    out.append(_FD_INTERPOSED[name])
+                    if name in ('write', 'pwrite64', 'writev'):
+                        written.add(first.split('<', 1)[0].strip())
+            elif name == 'close':
+                fd = first.split('<', 1)[0].strip()
+                if ('<' + root) in first and fd in written:
+                    out.append('close-w')
+                written.discard(fd)
+            elif name == 'unlinkat':
+                out.append('rmdir' if 'AT_REMOVEDIR' in args else 'unlink')
+            elif name in _INTERPOSED:
+                out.append(_INTERPOSED[name])
+            elif name in _UNINTERPOSED:
+                out.append('UNINTERPOSED:' + name)
+    return out
+
+
+def shim_audit(case, sc, s0):
+    """run the operation once under strace *and* the shim; -> (ok, detail). ok is None when strace is unusable"""
+    b = case['backend']
+    aud = os.path.join(sc, 'audroot')
+    shutil.copytree(s0, aud, symlinks=True)
+    slog, alog = os.path.join(sc, 'xa.strace'), os.path.join(sc, 'xa.log')
+    jp = os.path.join(sc, 'xa.job.json')
+    with open(jp, 'w') as f:
+        json.dump({'job': 'op', 'backend': b, 'root': aud, 'op': case['op'], 'arm': 'arm/0',
+                   'done': os.path.join(sc, 'xa.done')}, f)
+    env = child_env()
+    env.update({'LD_PRELOAD': SHIM, 'FSSHIM_ROOT': aud, 'FSSHIM_LOG': alog})
+    try:
+        p = subprocess.run(['strace', '-y', '-qq', '-s', '8', '-o', slog, '-e', 'trace=' + STRACE_SET,
+                            PY, '-m', 'kv.crashmon', jp], env=env, cwd=sc, timeout=120,
+                           stdout=subprocess.PIPE, stderr=subprocess.STDOUT)
+    except (OSError, subprocess.TimeoutExpired) as e:
+        return None, 'strace could not be run: %r' % (e,)
+    if p.returncode != 0 or not os.path.exists(os.path.join(sc, 'xa.done')) or not os.path.exists(slog):
+        return None, 'strace run failed: %s' % p.stdout.decode('utf-8', 'replace')[-200:]
+    seen_by_strace = strace_mutations(slog, aud)
+    seen_by_shim = [e['op'] for e in parse_log(alog) if e['mut']]
+    if seen_by_strace == seen_by_shim:
+        return True, len(seen_by_shim)
+    return False, 'strace saw %r, the shim saw %r' % (seen_by_strace[:40], seen_by_shim[:40])
 
 
 def parse_log(path):
@@ -333,6 +434,16 @@ def run_case(case, prop='C13'):
             return [{'property': 'C13', 'kind': 'operation-failed-without-fault', 'msg': out, 'mech': [], 'case': case}], cnt, {}
         events = [e for e in parse_log(log) if e['mut']]
         kinds = [e['op'] for e in events]
+        if case.get('audit'):
+            ok, detail = shim_audit(case, sc, s0)
+            if ok is None:
+                note('c13_audit_unavailable')
+            elif ok:
+                note('c13_audit_runs_agreeing')
+                note('c13_audit_events_compared', detail)
+            else:
+                note('c13_audit_mismatch')
+                cnt.setdefault('_audit_notes', []).append('%s %s: %s' % (backend_name(b), case['op'][0], detail))
         note('c13_triples')
         note('c13_events_in_dry_runs', len(events))
         points = []
@@ -414,11 +525,16 @@ def run_shard(prop, tier, seed, shard, nshards, opts):
     while i < n_total and time.time() - t0 < budget:
         rng = gen.make_rng('crashmon', seed, i)
         case = gen_case(rng)
+        cell = '%s/%s' % (backend_name(case['backend']), case['op'][0] + ('-cached' if case['op'][0] == 'open' and case['op'][1] else ''))
+        # shim-completeness audit: the first triple of every (configuration, operation) cell in this worker is also
+        # run under strace, and both observers must report the same sequence of mutating calls
+        case['audit'] = cell not in res['cells']
         viol, cnt, info = run_case(case)
+        for n in cnt.pop('_audit_notes', []):
+            res['notes'].append('shim audit mismatch: ' + n)
         res['cases'] += cnt.get('c13_crash_points', 0)
         for k, v in cnt.items():
             res['counters'][k] = res['counters'].get(k, 0) + v
-        cell = '%s/%s' % (backend_name(case['backend']), case['op'][0] + ('-cached' if case['op'][0] == 'open' and case['op'][1] else ''))
         res['cells'][cell] = res['cells'].get(cell, 0) + 1
         if info.get('exhaustive_for_this_triple') and info.get('points', 0) > 0:
             res['digests'].append(digest(case))
